@@ -418,6 +418,9 @@ func run(ctx *Ctx) *Result {
 		if be == "ios" && r.Chance(12) {
 			a, b = genRemarkBlockPair(r)
 			res.Count("ios:template:insert-at-remark-inside-block")
+		} else if r.Chance(8) {
+			a, b = genMoveDownIntoMixedRun(r)
+			res.Count(be + ":template:move-down-into-mixed-insert-run")
 		}
 		runCase(aclCase{Backend: be, A: a, B: b})
 	}
